@@ -106,6 +106,7 @@ type Obj struct {
 	Name  string
 	T     types.Type
 	IsArr bool // backing array of slices; T is then []Elem
+	Merged bool // created by state merging from two different backing arrays: no in-place writes
 }
 
 func (o *Obj) String() string { return fmt.Sprintf("%s#%d", o.Name, o.ID) }
